@@ -235,18 +235,13 @@ class Merge(Expr):
                 _npartitions = max(self.left.npartitions, self.right.npartitions)
 
         elif self.is_broadcast_join:
-            meta_index_names = set(self._meta.index.names)
-            if (
-                self.broadcast_side == "left"
-                and set(self.right._meta.index.names) == meta_index_names
-            ):
-                return self._bcast_right._divisions()
-            elif (
-                self.broadcast_side == "right"
-                and set(self.left._meta.index.names) == meta_index_names
-            ):
-                return self._bcast_left._divisions()
-            _npartitions = max(self.left.npartitions, self.right.npartitions)
+            if self.broadcast_side == "left":
+                frame = self._bcast_right
+            else:
+                frame = self._bcast_left
+            if self._broadcast_keeps_index:
+                return frame._divisions()
+            _npartitions = frame.npartitions
 
         else:
             _npartitions = self._npartitions
@@ -256,6 +251,16 @@ class Merge(Expr):
     @functools.cached_property
     def broadcast_side(self):
         return "left" if self.left.npartitions < self.right.npartitions else "right"
+
+    @functools.cached_property
+    def _broadcast_keeps_index(self):
+        # pandas only passes on the index of the other side if the broadcasted
+        # side is joined on its index.  Joining on its columns yields a new
+        # RangeIndex (or the index of the broadcasted side) in every partition,
+        # so the divisions of the other side say nothing about the result.
+        if self.broadcast_side == "left":
+            return bool(self.left_index)
+        return bool(self.right_index)
 
     @functools.cached_property
     def is_broadcast_join(self):
@@ -694,9 +699,10 @@ class BroadcastJoin(Merge, PartitionsFiltered):
         return "left" if self.left.npartitions < self.right.npartitions else "right"
 
     def _divisions(self):
-        if self.broadcast_side == "left":
-            return self.right._divisions()
-        return self.left._divisions()
+        frame = self.right if self.broadcast_side == "left" else self.left
+        if self._broadcast_keeps_index:
+            return frame._divisions()
+        return (None,) * (frame.npartitions + 1)
 
     def _simplify_up(self, parent, dependents):
         return
